@@ -1,67 +1,66 @@
 (* Props_C11.v — property C11: ONLY theorem statements, each closed by [exact] of a lemma of
    C11_Proofs*, followed by Print Assumptions.  [to_string_key] is utils.ToStringKey as it is on the
-   tree; the functions named here are the ones C11_Check.check_case evaluates on every run. *)
+   tree (with escapeKeyPart, fix 5d340d3); preload_hop / preload_m2m / preload_nested / assoc_find /
+   joins_model are the functions C11_Check.check_case evaluates on every run.
+   [typed ks1 ks2]: corresponding key columns have the same SQL type (schema typing) - the only
+   hypothesis on keys; nothing is assumed about their contents. *)
 From Verif Require Import Base C11_Model C11_Proofs C11_Proofs2 C11_Proofs3 C11_Proofs4 C11_Proofs5.
 Open Scope Z_scope.
 
 (* Preload, one hop, every relation kind that matches on key columns (has one, has many, belongs to,
    polymorphic, self-referential; single, composite, string keys; any number of parents, duplicates
-   included): each parent receives exactly the rows whose key equals its own AS VALUES and that pass
-   the conditions and the soft-delete scope - provided ToStringKey decides value equality on the
-   keys present.  This hypothesis is forced: see c11_refuted_*. *)
-Theorem c11_preload_partial : forall h ps cs,
-  keys_faithful to_string_key ps (map c_key cs) ->
+   included; NULL parts; conditions; soft-delete scope): each parent receives exactly the rows whose
+   key equals its own AS VALUES and that pass the conditions and the scope, for ALL key values. *)
+Theorem c11_preload : forall h ps cs,
+  typed ps (map c_key cs) ->
   preload_hop to_string_key h ps cs = Some (norm_single (h_single h) (attach h ps cs)).
-Proof. exact (preload_hop_attach to_string_key). Qed.
-Print Assumptions c11_preload_partial.
-
-(* the exact sufficient condition for the hypothesis, on the current tree: no string part contains
-   '_' or is the text "nil", no by-value integer part is 0, and corresponding parts have the same
-   column type.  Each clause is necessary for the conclusion in general: c11_refuted_separator /
-   _nil / _zero drop exactly one of them. *)
-Theorem c11_key_faithful_when : forall ps cs,
-  (forall k, In k ps \/ In k cs -> clean_key k = true) ->
-  (forall k1 k2, In k1 ps -> In k2 ps \/ In k2 cs -> compat k1 k2) ->
-  keys_faithful to_string_key ps cs.
-Proof. exact faithful_when. Qed.
-Print Assumptions c11_key_faithful_when.
+Proof. exact preload_total. Qed.
+Print Assumptions c11_preload.
 
 (* many-to-many: the join-table hop attaches to each parent exactly the targets linked to it by a
    join row whose columns equal the parent's and the target's keys as values, each once *)
-Theorem c11_m2m_partial : forall h ps js cs,
-  keys_faithful to_string_key ps (map fst js) ->
-  keys_faithful to_string_key (map snd js) (map c_key cs) ->
-  (forall j, In j js -> all_zero (snd j) = false) ->
-  join_rows_unique ps js cs ->
+Theorem c11_m2m : forall h ps js cs,
+  typed ps (map fst js) -> typed (map snd js) (map c_key cs) ->
+  (forall j, In j js -> all_zero (snd j) = false) -> join_rows_unique ps js cs ->
   preload_m2m to_string_key h ps js cs = Some (attach_m2m h ps js cs).
-Proof. exact (preload_m2m_attach to_string_key). Qed.
-Print Assumptions c11_m2m_partial.
+Proof. exact preload_m2m_total. Qed.
+Print Assumptions c11_m2m.
 
 (* nested path A.B: the rows fetched for A are exactly the rows owned by some parent, and hop B
    attaches to each of them exactly its own rows *)
-Theorem c11_nested_partial : forall h1 h2 ps cs1 cs2,
+Theorem c11_nested : forall h1 h2 ps cs1 cs2,
   let f := filter (owned h1 ps) cs1 in
-  keys_faithful to_string_key ps (map c_key cs1) ->
-  keys_faithful to_string_key (map c_key2 f) (map c_key cs2) ->
+  typed ps (map c_key cs1) -> typed (map c_key2 f) (map c_key cs2) ->
   preload_nested to_string_key h1 h2 ps cs1 cs2 =
   (Some (norm_single (h_single h1) (attach h1 ps cs1)), map c_uid f,
    Some (norm_single (h_single h2) (attach h2 (map c_key2 f) cs2))).
-Proof. exact (preload_nested_attach to_string_key). Qed.
-Print Assumptions c11_nested_partial.
+Proof. exact preload_nested_total. Qed.
+Print Assumptions c11_nested.
 
-(* Association().Find: for ONE owner, unconditionally exactly its rows *)
+(* Association().Find over one or several owners: exactly the rows owned by one of them *)
+Theorem c11_assoc_find : forall h ps cs,
+  (forall k1 k2, In k1 ps -> In k2 ps -> compat k1 k2) ->
+  assoc_find to_string_key h ps cs = map c_uid (filter (owned h ps) cs).
+Proof. exact assoc_find_total. Qed.
+Print Assumptions c11_assoc_find.
+
 Theorem c11_assoc_find_one : forall h kp cs,
   assoc_find to_string_key h [kp] cs = map c_uid (filter (belongs h kp) cs).
 Proof. exact (assoc_find_single_owner to_string_key). Qed.
 Print Assumptions c11_assoc_find_one.
 
-(* ... for several owners: exactly the rows owned by one of them, when owner keys that print alike
-   are equal as values *)
-Theorem c11_assoc_find_partial : forall h ps cs,
-  parents_injective to_string_key ps ->
-  assoc_find to_string_key h ps cs = map c_uid (filter (owned h ps) cs).
-Proof. exact (assoc_find_owned to_string_key). Qed.
-Print Assumptions c11_assoc_find_partial.
+(* the reason: the identity key decides SQL value equality on every typed set of keys *)
+Theorem c11_key_faithful : forall ps cs,
+  typed ps cs -> keys_faithful to_string_key ps cs.
+Proof. exact key_faithful. Qed.
+Print Assumptions c11_key_faithful.
+
+(* the matching loop itself is correct for ANY encoding that is faithful on the keys present *)
+Theorem c11_preload_generic : forall tsk h ps cs,
+  keys_faithful tsk ps (map c_key cs) ->
+  preload_hop tsk h ps cs = Some (norm_single (h_single h) (attach h ps cs)).
+Proof. exact preload_hop_attach. Qed.
+Print Assumptions c11_preload_generic.
 
 (* association Joins: the ON clause compares values in SQL (modelled as such: correspondence only);
    it agrees with Preload's attachment whenever the parents have non-zero keys *)
@@ -74,62 +73,50 @@ Theorem c11_joins : forall h ps cs,
 Proof. exact joins_model_attach. Qed.
 Print Assumptions c11_joins.
 
-(* the full statement is FALSE of the code on the tree: three witnesses, each replayed on real gorm
-   (corpus/C11) *)
-Theorem c11_refuted_separator :
-  preload_hop to_string_key hop_many sep_ps sep_cs = Some [[201]; [201]] /\
+(* ---- about the PREVIOUS code (utils.ToStringKey before fix 5d340d3), kept as a record of why the
+   fix was needed; [to_string_key_prev] is not evaluated by the checker ---- *)
+Theorem c11_prev_refuted_separator :
+  preload_hop to_string_key_prev hop_many sep_ps sep_cs = Some [[201]; [201]] /\
   attach hop_many sep_ps sep_cs = [[201]; [202]].
 Proof. exact refuted_separator. Qed.
-Print Assumptions c11_refuted_separator.
+Print Assumptions c11_prev_refuted_separator.
 
-Theorem c11_refuted_nil :
-  preload_hop to_string_key hop_one nil_ps nil_cs = Some [[]; []] /\
-  preload_hop to_string_key hop_one (rev nil_ps) nil_cs = Some [[301]; [301]] /\
+Theorem c11_prev_refuted_nil :
+  preload_hop to_string_key_prev hop_one nil_ps nil_cs = Some [[]; []] /\
+  preload_hop to_string_key_prev hop_one (rev nil_ps) nil_cs = Some [[301]; [301]] /\
   attach hop_one nil_ps nil_cs = [[]; [301]].
 Proof. exact refuted_nil. Qed.
-Print Assumptions c11_refuted_nil.
+Print Assumptions c11_prev_refuted_nil.
 
-Theorem c11_refuted_zero :
-  preload_hop to_string_key hop_many zero_ps zero_cs = None /\
+Theorem c11_prev_refuted_zero :
+  preload_hop to_string_key_prev hop_many zero_ps zero_cs = None /\
   attach hop_many zero_ps zero_cs = [[201]; [202]].
 Proof. exact refuted_zero. Qed.
-Print Assumptions c11_refuted_zero.
+Print Assumptions c11_prev_refuted_zero.
 
-Theorem c11_refuted : exists h ps cs,
-  preload_hop to_string_key h ps cs <> Some (norm_single (h_single h) (attach h ps cs)).
-Proof. exact refuted_all. Qed.
-Print Assumptions c11_refuted.
+(* the fix left every key free of '\', '_', the string "nil" and by-value zeros as it printed before *)
+Theorem c11_encoding_unchanged : forall k,
+  forallb plain_part k = true -> to_string_key k = to_string_key_prev k.
+Proof. exact encoding_unchanged. Qed.
+Print Assumptions c11_encoding_unchanged.
 
-Theorem c11_refuted_assoc_find :
-  assoc_find to_string_key hop_many sep_ps sep_cs = [201] /\
-  map c_uid (filter (owned hop_many sep_ps) sep_cs) = [201; 202].
-Proof. exact refuted_assoc_find. Qed.
-Print Assumptions c11_refuted_assoc_find.
-
-(* the proposed patch of utils.ToStringKey (escape '\' and '_' in string parts, print the string
-   "nil" as "\nil", print zero numbers as numbers): with it the statement is total - only schema
-   typing of corresponding key parts remains - and keys free of '\', '_', "nil" and by-value zeros
-   print exactly as before (utils_test.go's expectations "a", "1_2_3", "1_nil_3" are kept). *)
-Theorem c11_fixed_total : forall h ps cs,
-  (forall k1 k2, In k1 ps -> In k2 ps \/ In k2 (map c_key cs) -> compat k1 k2) ->
-  preload_hop to_string_key_fixed h ps cs = Some (norm_single (h_single h) (attach h ps cs)).
-Proof. exact preload_fixed_total. Qed.
-Print Assumptions c11_fixed_total.
-
-Theorem c11_fixed_unchanged : forall k,
-  forallb plain_part k = true -> to_string_key_fixed k = to_string_key k.
-Proof. exact fixed_unchanged. Qed.
-Print Assumptions c11_fixed_unchanged.
-
-(* non-vacuity *)
-Example c11_faithful_instance :
-  keys_faithful to_string_key
-    [[KStr "a"; KStr "b"]; [KStr "a"; KStr "c"]; [KStr "a"; KStr "b"]]
-    [[KPStr "a"; KPStr "b"]; [KNil; KPStr "c"]; [KPStr "x y"; KPStr "c"]].
-Proof. exact faithful_instance. Qed.
-
-Example c11_fixed_repairs_witnesses :
-  preload_hop to_string_key_fixed hop_many sep_ps sep_cs = Some (attach hop_many sep_ps sep_cs) /\
-  preload_hop to_string_key_fixed hop_one nil_ps nil_cs = Some (attach hop_one nil_ps nil_cs) /\
-  preload_hop to_string_key_fixed hop_many zero_ps zero_cs = Some (attach hop_many zero_ps zero_cs).
+(* non-vacuity: the three former witnesses are typed inputs, and the current code is right on them *)
+Example c11_former_witnesses :
+  preload_hop to_string_key hop_many sep_ps sep_cs = Some (attach hop_many sep_ps sep_cs) /\
+  preload_hop to_string_key hop_one nil_ps nil_cs = Some (attach hop_one nil_ps nil_cs) /\
+  preload_hop to_string_key hop_many zero_ps zero_cs = Some (attach hop_many zero_ps zero_cs).
 Proof. repeat split; vm_compute; reflexivity. Qed.
+
+Example c11_typed_instance : typed sep_ps (map c_key sep_cs).
+Proof.
+  intros k1 k2 H1 H2. cbn in H1, H2.
+  repeat (destruct H1 as [H1|H1]; [subst k1|]); try destruct H1;
+  (destruct H2 as [H2|H2]; repeat (destruct H2 as [H2|H2]; [subst k2|]); try destruct H2);
+  repeat constructor.
+Qed.
+
+Example c11_test_expectations :
+  to_string_key [KStr "a"] = "a"%string /\
+  to_string_key [KInt 1; KInt 2; KInt 3] = "1_2_3"%string /\
+  to_string_key [KInt 1; KNil; KInt 3] = "1_nil_3"%string.
+Proof. exact encoding_keeps_tests. Qed.
